@@ -9,12 +9,14 @@
 //!       form  : p (plain) | t (…_with_tags(..).<bops>.try_send()) | s (…_with_tags(..).<bops>.send())
 //!       value : n | <i64> | <u64> | f<bits16hex>=<text> | <secs>s<nanos> | [] | `_`-joined list of those
 //!       bops  : `-` | `+` list of T<khex>:<vhex> | V<vhex> | C<hex> | S<u64> | R<f64 token>
-//!       sink  : a (accept) | r<k> (refuse with io::ErrorKind index k, unique token = call index+1)
+//!       sink  : a (accept) | b<n> (accept, reporting n bytes; bm = usize::MAX) | r<k> (refuse with
+//!               io::ErrorKind index k, unique token = call index+1)
 //!     obs   : `;` list of `<result>/<emits>/<handler>`
 //!       result  : ok:<hex of as_metric_str> | inv | io:<k>:<tok> | unit | panic
 //!       emits   : `~` | comma list of hex strings the sink received during the call
 //!       handler : `~` | comma list of inv | io:<k>:<tok>
 //!   std <ctor> <prefixhex> <keyhex> <value> => <hex>
+//!   val <variant> <value> => <hex of format!("{}", MetricValue)> | panic
 //!
 //! f64 text is produced here with `format!("{}", x)`, independently of cadence.
 
@@ -30,9 +32,18 @@ use std::panic::{catch_unwind, AssertUnwindSafe};
 use std::sync::{Arc, Mutex};
 use std::time::Duration;
 
+/// what the scripted sink answers: accept (reporting the metric's length), accept reporting some
+/// other byte count (a sink may report anything, e.g. 0 when it buffers), or refuse
+#[derive(Clone, Copy)]
+enum Ans {
+    Accept,
+    AcceptReporting(usize),
+    Refuse(usize),
+}
+
 #[derive(Default)]
 struct SinkState {
-    script: VecDeque<Option<usize>>, // None = accept, Some(k) = refuse kind k
+    script: VecDeque<Ans>,
     received: Vec<String>,
     tok: u64,
 }
@@ -43,9 +54,10 @@ impl MetricSink for ScriptedSink {
     fn emit(&self, metric: &str) -> io::Result<usize> {
         let mut s = self.0.lock().unwrap();
         s.received.push(metric.to_string());
-        match s.script.pop_front().unwrap_or(None) {
-            None => Ok(metric.len()),
-            Some(k) => {
+        match s.script.pop_front().unwrap_or(Ans::Accept) {
+            Ans::Accept => Ok(metric.len()),
+            Ans::AcceptReporting(n) => Ok(n),
+            Ans::Refuse(k) => {
                 let t = s.tok;
                 Err(tok_err(k, t))
             }
@@ -305,7 +317,13 @@ fn run_fmt(prefix: &str, tags: &str, cid: &str, calls: &str) -> String {
         {
             let mut s = sink.lock().unwrap();
             s.script.clear();
-            s.script.push_back(if sinkt == "a" { None } else { Some(sinkt[1..].parse().unwrap()) });
+            s.script.push_back(if sinkt == "a" {
+                Ans::Accept
+            } else if let Some(n) = sinkt.strip_prefix('b') {
+                Ans::AcceptReporting(if n == "m" { usize::MAX } else { n.parse().unwrap_or(0) })
+            } else {
+                Ans::Refuse(sinkt[1..].parse().unwrap())
+            });
             s.received.clear();
             s.tok = i as u64 + 1;
         }
@@ -343,6 +361,24 @@ fn run_std(ctor: &str, prefix: &str, key: &str, valt: &str) -> String {
     }
 }
 
+/// `impl Display for MetricValue` (public through `cadence::ext`), every variant, empty lists included
+fn run_val(variant: &str, valt: &str) -> String {
+    use cadence::ext::MetricValue;
+    let items: Vec<String> = if valt == "[]" { vec![] } else { valt.split('_').map(|x| x.to_string()).collect() };
+    let v = match variant {
+        "signed" => MetricValue::Signed(valt.parse().unwrap_or(0)),
+        "unsigned" => MetricValue::Unsigned(valt.parse().unwrap_or(0)),
+        "float" => MetricValue::Float(parse_f64(valt)),
+        "psigned" => MetricValue::PackedSigned(items.iter().map(|x| x.parse().unwrap_or(0)).collect()),
+        "punsigned" => MetricValue::PackedUnsigned(items.iter().map(|x| x.parse().unwrap_or(0)).collect()),
+        _ => MetricValue::PackedFloat(items.iter().map(|x| parse_f64(x)).collect()),
+    };
+    match catch_unwind(AssertUnwindSafe(|| format!("{}", v))) {
+        Ok(s) => hex(s.as_bytes()),
+        Err(_) => "panic".to_string(),
+    }
+}
+
 fn run_line(line: &str) -> Option<String> {
     let line = line.split(" => ").next().unwrap().trim();
     if line.is_empty() || line.starts_with('#') {
@@ -352,6 +388,7 @@ fn run_line(line: &str) -> Option<String> {
     match f[0] {
         "fmt" if f.len() == 5 => Some(format!("{} => {}", line, run_fmt(f[1], f[2], f[3], f[4]))),
         "std" if f.len() == 5 => Some(format!("{} => {}", line, run_std(f[1], f[2], f[3], f[4]))),
+        "val" if f.len() == 3 => Some(format!("{} => {}", line, run_val(f[1], f[2]))),
         _ => Some(format!("{} => malformed", line)),
     }
 }
@@ -597,6 +634,9 @@ fn gen_bops(rng: &mut Rng, mask: u32, hostile: bool) -> String {
 fn gen_sink(rng: &mut Rng, failpct: u64) -> String {
     if rng.chance(failpct) {
         format!("r{}", rng.below(16))
+    } else if rng.chance(15) {
+        // an accepting sink may report any byte count
+        (*rng.pick(&["b0", "b1", "b7", "bm", "b4096"])).to_string()
     } else {
         "a".to_string()
     }
@@ -694,7 +734,7 @@ fn exhaustive_outcomes(out: &mut impl Write, count: &mut u64) {
             _ => None,
         };
         for form in ["p", "t", "s"] {
-            for sink in ["a", "r8", "r15", "r4"] {
+            for sink in ["a", "b0", "b1", "r8", "r15", "r4", "r11"] {
                 let mut calls = vec![format!("{}/{}/{}/{}/-/{}", entry, form, h("k"), valid, sink)];
                 if let Some(iv) = invalid {
                     calls.push(format!("{}/{}/{}/{}/-/{}", entry, form, h("k"), iv, sink));
@@ -736,5 +776,25 @@ fn main() {
     sequences(&mut out, &mut rng, nseq, false, &mut count);
     sequences(&mut out, &mut rng, nseq / 4, true, &mut count);
     std_cases(&mut out, &mut rng, nstd, &mut count);
+    for i in 0..(nstd / 4) {
+        let variant = ["signed", "unsigned", "float", "psigned", "punsigned", "pfloat"][i % 6];
+        let n = match rng.below(6) {
+            0 => 0,
+            1 => 1,
+            _ => rng.range(2, 5) as usize,
+        };
+        let valt = match variant {
+            "signed" => gen_i64(&mut rng).to_string(),
+            "unsigned" => gen_u64(&mut rng).to_string(),
+            "float" => f64_tok(gen_f64(&mut rng)),
+            "psigned" => if n == 0 { "[]".into() } else { (0..n).map(|_| gen_i64(&mut rng).to_string()).collect::<Vec<_>>().join("_") },
+            "punsigned" => if n == 0 { "[]".into() } else { (0..n).map(|_| gen_u64(&mut rng).to_string()).collect::<Vec<_>>().join("_") },
+            _ => if n == 0 { "[]".into() } else { (0..n).map(|_| f64_tok(gen_f64(&mut rng))).collect::<Vec<_>>().join("_") },
+        };
+        if let Some(l) = run_line(&format!("val {} {}", variant, valt)) {
+            writeln!(out, "{}", l).unwrap();
+            count += 1;
+        }
+    }
     eprintln!("fmt: {} cases", count);
 }
